@@ -22,6 +22,8 @@
                      `newLoop` / `closeLoop` = a fresh event loop is created / the loop is closed
                                               (callbacks that were accepted but did not run are dropped)
                      `inval`      = `Application.invalidate()` + the redraw it schedules
+                     `exit`       = `Application.exit()` sets the future's result (`is_done`), `run_async` has
+                                    not resumed yet: "exit requested" phase, ended by `stop`
 
   The chain of `in_terminal` sections (`Application._running_in_terminal_f`) for sections that
   stay open across `await`s is modelled separately in `Ptk.Model.C20Chain`.
@@ -79,6 +81,10 @@ structure St where
   loopOpen : Bool := false
   /-- an `Application` is running (`AppSession.app` set, `_is_running`, prompt rendered) on loop `loopGen` -/
   appOn : Bool := false
+  /-- `Application.exit()` has set the result of the application's future (`app.is_done`), but
+      `run_async` has not woken up yet: `_is_running` is still True, the prompt is still drawn and the final
+      ('done') rendering is pending.  (`appOn ∧ exiting` = the "exit requested" phase.) -/
+  exiting : Bool := false
   /-- texts of the callbacks accepted by `loop.call_soon_threadsafe`, not yet run; oldest first -/
   pending : List Text := []
   /-- texts of callbacks that a closing loop dropped -/
@@ -100,6 +106,8 @@ inductive Op where
   /-- `Application.invalidate()` followed by the scheduled `_redraw()`: the running application
       repaints its prompt (key press, resize, refresh ...) -/
   | inval
+  /-- `Application.exit()`: the future gets its result; `run_async` resumes later (`stop`) -/
+  | exit
 deriving Repr, DecidableEq
 
 /-- `"".join(parts)` -/
@@ -186,9 +194,14 @@ def step (s : St) : Op → St
   | .fl => flStep s
   | .run => runStep s
   | .start =>
-    if s.loopOpen ∧ ¬ s.appOn then { s with appOn := true, log := s.log ++ [.draw] } else s
+    if s.loopOpen ∧ ¬ s.appOn then { s with appOn := true, exiting := false, log := s.log ++ [.draw] } else s
   | .stop =>
-    if s.appOn then { s with appOn := false, log := s.log ++ [.doneDraw] } else s
+    -- `run_async` wakes up (after `exit`, or exit and wake-up in one go): final rendering, `_is_running = False`
+    if s.appOn then { s with appOn := false, exiting := false, log := s.log ++ [.doneDraw] } else s
+  | .exit =>
+    -- only the future changes: `in_terminal` tests `app._is_running`, not `app.is_done`, so a section that
+    -- runs in this phase still erases and redraws the prompt (see `runStep`, which looks at `appOn` only)
+    if s.appOn then { s with exiting := true } else s
   | .newLoop =>
     if s.loopOpen then s else { s with loopGen := s.loopGen + 1, loopOpen := true }
   | .closeLoop =>
